@@ -274,7 +274,7 @@ GraphScenario c09({
    "expression/labeled/goto statements, do/while/switch/for/for-in once their body is set, phased evaluation, instantiation -> the designated sub-node; casts and literals -> the target type; id-expression of a declaration -> its type), "
    "given types (every factory with a type parameter reports exactly it; absent => logic_error). For scopes, parameter lists and expression lists the product type is re-checked after every addition. "
    "Non-trivial = at least one typed node checked.",
-   false, 4, 300, 0, 0, 0, 0, 1, 0, false, 0, true, true, 0, 2500, 250000, 20, 180 },
+   false, 4, 300, 0, 0, 0, 0, 1, 0, false, 0, true, true, 4, 2500, 250000, 20, 180 },
    weighted({ { G_generic, 4 }, { G_names, 2 }, { G_types, 4 }, { G_exprs, 5 }, { G_dirs, 3 }, { G_stmts, 5 }, { G_decls, 5 }, { G_units, 1 }, { G_forms, 1 }, { G_setters, 4 }, { G_noise, 2 } },
             { { OP_expr_list_push_back, 12 }, { OP_plist_add_member, 10 }, { OP_mapping_param, 6 }, { OP_set_loop_fields, 10 }, { OP_set_expr_fields, 8 } }));
 
